@@ -10,11 +10,11 @@
   Clause of the property                          theorem
   ------------------------------------------------------------------------------------------
   islands = seeded 8-connected flood groups        islands_eq_spec
-  pairwise disjoint                                islands_disjoint (+ islands_nonempty)
+  pairwise disjoint                                islands_disjoint (+ islands_nonempty, pixels_nodup)
   box tight around the island's own pixels         bbox_tight, mask_frame_eq_box
   blank pixels never members                       blank_never_member, members_on_mask
   raising the seed threshold only removes islands  seed_monotone, seed_monotone_images, seed_monotone_real
-  label array is a labelling (checked per case)    checkLabelling_sound
+  label array is a labelling (checked per case)    checkLabelling_sound, labelling_independent
 -/
 import Aegean.Proofs.C02
 import Aegean.Proofs.C02Real
@@ -184,6 +184,22 @@ theorem seed_monotone_real (H W : Nat) (im bkg rms : Px → Option ℝ) (flood s
     (findIslands (Grid.ofImages H W im bkg rms flood seed') lab n inside).Sublist
       (findIslands (Grid.ofImages H W im bkg rms flood seed) lab n inside) :=
   seed_monotone_images H W im bkg rms flood seed seed' (by simp [Cmp.le, hle]) inside
+
+/-- the pixel list of a reported island has no duplicates (it represents a set) -/
+theorem pixels_nodup (inside : Option (Px → Bool)) {I : Island}
+    (hI : I ∈ findIslands g lab n inside) : I.pixels.Nodup := by
+  obtain ⟨k, _, hk⟩ := mem_findIslands.1 hI
+  exact islandOf_pixels_nodup hk
+
+/-- **labelling_independent** — any two labellings of the same mask give the same islands (pixel
+    sets and boxes): it does not matter whether the driver's BFS labelling or scipy's is used -/
+theorem labelling_independent (hl : IsLabelling g lab n) {lab' : Px → Nat} {n' : Nat}
+    (hl' : IsLabelling g lab' n') {I : Island} (hI : I ∈ findIslands g lab n none) :
+    ∃ J ∈ findIslands g lab' n' none, (∀ p, p ∈ I.pixels ↔ p ∈ J.pixels) ∧ I.box = J.box := by
+  have h := (islands_eq_spec hl (fun p => p ∈ I.pixels)).1 ⟨I, hI, fun _ => Iff.rfl⟩
+  obtain ⟨J, hJ, hp⟩ := (islands_eq_spec hl' (fun p => p ∈ I.pixels)).2 h
+  refine ⟨J, hJ, fun p => (hp p).symm, ?_⟩
+  exact tight_unique (bbox_tight none hI) (bbox_tight none hJ) (fun p => (hp p).symm)
 
 /-- **checkLabelling_sound** — the verified checker: if the per-pixel conditions hold for a label
     array and a BFS parent forest, the label array is a labelling in the sense of the Spec.  Run by
